@@ -1,8 +1,8 @@
 """C11 - simulation statistics honour warm-up and replication end; publish true values.
 
 Engine A + inline worker.  K observation events at symbolic (time, priority in {MIN, NORMAL}),
-symbolic warm-up time and replication end, an optional pause (stop() from the handler of event j,
-then start()); observation VALUES are concrete per slot (the property quantifies over schedules).
+symbolic warm-up time and replication end, an optional pause (stop() from the handler of event j, or
+a bounded run run_up_to(b) first, then start()); observation VALUES are concrete per slot (the property quantifies over schedules).
 At the end every simulation statistic must report what the ordinary statistic reports when fed
 exactly the observations made at or after the warm-up time, in execution order; the persistent one
 is closed at the replication end; the model returns the statistics under their keys; every value a
@@ -21,6 +21,7 @@ from vf import rt
 K = rt.envint("VF_K", 3)
 VMAX = rt.envint("VF_VMAX", 4)
 KIND = rt.envstr("VF_STAT", "tally")      # counter | tally | weighted | persistent
+PAUSEKIND = rt.envint("VF_PAUSEKIND", 0)  # split: 0 pause by stop() from a handler (or none), 1 pause by a bounded run (or none)
 OBS = EventType("VF_C11_OBS")
 IVAL = [3, -1, 4, 2, 7]
 FVAL = [1.5, 1.5, -2.0, 0.25, 8.0]
@@ -95,11 +96,18 @@ class ObsModel(DSOLModel):
             quiet(self.simulator.stop)
 
 
-def schedule(times, prios, warm, end, pause_at):
+def schedule(times, prios, warm, end, pause_at, bound=-1):
     sim = make_sim()
     model = ObsModel(sim, times, prios, pause_at)
     rep = SingleReplication("rep", conv(0), conv(warm), conv(end))
     quiet(sim.initialize, model, rep)
+    if bound >= 0:
+        # the run is optionally interrupted by a bounded run first (a pause at a time, not at an event)
+        try:
+            quiet(sim.run_up_to, conv(bound))
+        except DSOLError:
+            pass
+        settle(sim)
     guard = 0
     while sim.run_state != RunState.ENDED and guard < 4:
         guard += 1
@@ -148,13 +156,16 @@ def schedule(times, prios, warm, end, pause_at):
     return True
 
 
-def h_schedule(times: List[int], prios: List[int], warm: int, end: int, pause_at: int) -> bool:
+def h_schedule(times: List[int], prios: List[int], warm: int, end: int, pause_at: int, bound: int) -> bool:
     """
     pre: len(times) == K and len(prios) == K
     pre: all(0 <= t <= VMAX + 1 for t in times)
     pre: all(0 <= p <= 1 for p in prios)
     pre: 1 <= end <= VMAX and 0 <= warm <= end
     pre: 0 <= pause_at <= K
+    pre: -1 <= bound < end
+    pre: bound < 0 or pause_at == 0
+    pre: (PAUSEKIND == 0 and bound < 0) or (PAUSEKIND == 1 and pause_at == 0)
     post: _
     """
-    return schedule(times, prios, warm, end, pause_at)
+    return schedule(times, prios, warm, end, pause_at, bound)
